@@ -159,7 +159,20 @@ impl Drop for CtxPayload {
             self.world.unloads.fetch_add(1, Ordering::SeqCst);
             if !cfg!(miri) && self.world.check_backtrace.load(Ordering::SeqCst) {
                 let bt = std::backtrace::Backtrace::force_capture().to_string();
-                if bt.contains("cglue_wrapped_") {
+                // a frame of a generated callee-side function: `…::cglue_internal::<lower-case name>`
+                // (the caller-side trait impl shows as `…::cglue_internal::<impl …>::method`); the
+                // wrappers' private naming scheme is not relied upon
+                let mut inside = false;
+                let mut rest = bt.as_str();
+                while let Some(i) = rest.find("cglue_internal::") {
+                    let tail = &rest[i + "cglue_internal::".len()..];
+                    if tail.chars().next().map(|c| c.is_ascii_lowercase() || c == '_').unwrap_or(false) {
+                        inside = true;
+                        break;
+                    }
+                    rest = tail;
+                }
+                if inside {
                     self.world.unload_inside_wrapper.fetch_add(1, Ordering::SeqCst);
                 }
             }
